@@ -95,6 +95,16 @@ CHECKS = {
             "(IEEE rounding, libm and CPython's compensated sum are not modelled); optima documented to a few decimals (schwefel, three himmelblau minima, "
             "h1, shekel) are numeric tests; numpy.linalg.inv is a parameter with its inverse contract; a tape must be long enough and well typed for changePeaks to be defined.",
             "Lean 4 proofs over published-definition models + tolerance correspondence (Float instance) + independent reference-formula oracle"),
+    "C08": ("full",
+            "Lean theorems (C08.never_raises, mirror(+_index), sorted_desc, keys_sorted, size_le, worst_monotone, members_shown, copies_fresh, copies_frame, "
+            "pairwise_dissimilar, all_kept_while_room, best_of_seen(+_gt); pf_never_raises, pf_mirror, pf_sorted, pf_copies, pf_antichain, pf_exact, dom_meaning) hold for every "
+            "history of update batches, every capacity >= 1, every genome type and every linearly ordered scalar; model Core/Archive.lean (two parallel lists, CPython's "
+            "bisect loop, remove index arithmetic, to_remove deleted in reverse, fresh object ids for deep copies) is diffed against deap.tools.HallOfFame/ParetoFront after "
+            "every update on all histories of <=3 batches of <=2 from four 6-individual universes (thorough; 1.3M cases) plus random histories with re-submission and in-place "
+            "modification, and the statement itself is evaluated as an oracle on the real archive (incl. overwriting every submitted object after each update).",
+            TB + "Reading (DESIGN 6): similarity reflexive+symmetric, ignores identity, similar shown individuals have equal fitness (HoF); same number of objectives (Pareto); "
+            "transitivity not needed. deepcopy modelled as fresh object id (checked by the oracle); similarity callable pure; IEEE products of the dyadic test inputs exact.",
+            "Lean 4 proof over a hand-written model + differential correspondence + oracle"),
 }
 
 NOT_YET = {}
